@@ -25,6 +25,10 @@ judges each result:
                memos: every interleaving of the executed lines with <= bound preemptions
                (vf/sched.py); each thread's result and the memoised answer afterwards obey
                the clauses above (keys threads/...);
+* shared style one Style object (constructor, Style.parse memo, copy()) rendered for every
+               sequence of <=3 colour systems, fg x bg over all colour kinds: every emitted
+               SGR group is a colour of the system rendered for and the string equals a
+               fresh Style's (keys style/..., style-history/...);
 * faults       the first conversion of a cold process is cut short by an exception at every
                call of Palette.match / every executed line of rich.color; afterwards all 256
                indexed colours still convert correctly (keys fault/...);
@@ -574,14 +578,24 @@ class Oracle:
         s, prob = self.sem(d)
         if s is None:
             return [("gamut", "result %s" % prob)]
+        return self.judge_sem(s, ref, T, _show(d))
+
+    def judge_sem(self, s, ref, T, shown=None):
+        """the same clauses on a verified meaning s = (kind, value...) (also used on colours decoded
+        from an emitted SGR sequence); ref may also be ("default",)"""
+        shown = shown or repr(s)
         k0 = s[0]
+        if ref[0] == "default":
+            return [] if k0 == "default" else [("unchanged", "default colour became %s" % shown)]
+        if k0 == "default":
+            return [("gamut", "%r became the default colour" % (ref,))]
         out = []
         ik = ref[0]
         if ik != "rgb":
             n0 = ref[1]
             if T in ("STANDARD", "WINDOWS") and ik == "idx":
                 if k0 != "n16":
-                    return [("gamut", "%s is not a colour of the %s system" % (_show(d), T.lower()))]
+                    return [("gamut", "%s is not a colour of the %s system" % (shown, T.lower()))]
                 near = self.near.get(T)
                 if near is not None:
                     trip = XTERM[n0]
@@ -593,18 +607,18 @@ class Oracle:
                                     % (n0, trip, T.lower(), s[1], near.pal[s[1]], dl[s[1]], best, near.pal[best], m)))
             else:
                 if k0 not in ("n16", "n256"):
-                    return [("gamut", "%s is not an indexed colour" % _show(d))]
+                    return [("gamut", "%s is not an indexed colour" % shown)]
                 if s[1] != n0:
-                    out.append(("unchanged", "colour %d became %s" % (n0, _show(d))))
+                    out.append(("unchanged", "colour %d became %s" % (n0, shown)))
             return out
         rgb = (ref[1], ref[2], ref[3])
         r, g, b = rgb
         if T == "TRUECOLOR":
             if s != ("rgb", r, g, b):
-                out.append(("unchanged", "%r became %s" % (rgb, _show(d))))
+                out.append(("unchanged", "%r became %s" % (rgb, shown)))
         elif T in ("STANDARD", "WINDOWS"):
             if k0 != "n16":
-                return [("gamut", "%s is not a colour of the %s system" % (_show(d), T.lower()))]
+                return [("gamut", "%s is not a colour of the %s system" % (shown, T.lower()))]
             near = self.near.get(T)
             if near is not None:
                 dl = near.d2(r, g, b)
@@ -615,7 +629,7 @@ class Oracle:
                                 % (rgb, T.lower(), s[1], near.pal[s[1]], dl[s[1]], best, near.pal[best], m)))
         else:
             if k0 not in ("n16", "n256"):
-                return [("gamut", "%s is not a colour of the eight_bit system" % _show(d))]
+                return [("gamut", "%s is not a colour of the eight_bit system" % shown)]
             n = s[1]
             if r == g == b and not (n == 16 or n >= 231):
                 out.append(("grey", "grey %r -> colour %d, off the grey ramp" % (rgb, n)))
@@ -824,6 +838,259 @@ def _part_hist(sh, res):
             _run_hist(seq, res)
     res.count("histories", hist + (ne if sh["i"] == 0 else 0))
     res.sample({"part": "hist", "seq": [list(H_EVENTS[e]) for e in (0, 13, 9)]}, limit=1)
+
+
+# ------------------------------------------------------------------ part "style"
+# One Style object is rendered for a sequence of colour systems (Style.render keeps a one-slot
+# (system, codes) memo; Style.parse / a theme / the caller share the object between consoles).
+# Every emitted SGR parameter string is decoded here, its colour groups must be colours of the
+# system rendered for and obey the sequential clauses (nearest, unchanged, default), and the
+# whole string must equal what a fresh Style of the same definition emits for that system.
+S_COLOURS = [
+    None,
+    ("default", "default"),
+    ("idx", 1, "ansi"),            # red
+    ("idx", 12, "ansi"),           # bright_blue
+    ("idx", 52, "ansi"),           # xterm cube (95, 0, 0)
+    ("idx", 244, "ansi"),          # grey ramp
+    ("rgb", 255, 85, 85, "triplet"),
+    ("rgb", 10, 200, 77, "triplet"),
+]
+S_KIND = {None: "none", "default": "default", "std": "standard", "idx": "eight_bit", "rgb": "truecolor"}
+S_ATTRS = [(), ("bold",)]
+S_MODES = ("ctor", "parse", "copy", "console")
+S_EVENTS = SYSTEMS + (None,)          # None: render(color_system=None) -- must emit nothing and disturb nothing
+S_DEPTH = 3
+S_CONSOLE = {"STANDARD": "standard", "EIGHT_BIT": "256", "TRUECOLOR": "truecolor", "WINDOWS": "windows"}
+S_ATTR_CODE = {"bold": "1"}
+
+
+def _s_parse_sgr(params):
+    """own decoder of one SGR parameter string -> (attrs, fg, bg) with fg/bg = meaning tuple or None;
+    raises ValueError on anything that is not a standard parameter group"""
+    attrs, fg, bg = [], None, None
+    tok = params.split(";") if params else []
+    i = 0
+    while i < len(tok):
+        t = tok[i]
+        if not t.isdigit():
+            raise ValueError("parameter %r" % t)
+        n = int(t)
+        col = None
+        if n in (38, 48):
+            if i + 1 >= len(tok):
+                raise ValueError("truncated %d group" % n)
+            if tok[i + 1] == "5":
+                vals = tok[i + 2:i + 3]
+                if len(vals) != 1 or not vals[0].isdigit() or not 0 <= int(vals[0]) <= 255:
+                    raise ValueError("bad %d;5 group %r" % (n, vals))
+                col = ("n256", int(vals[0]))
+                i += 3
+            elif tok[i + 1] == "2":
+                vals = tok[i + 2:i + 5]
+                if len(vals) != 3 or not all(v.isdigit() and 0 <= int(v) <= 255 for v in vals):
+                    raise ValueError("bad %d;2 group %r" % (n, vals))
+                col = ("rgb", int(vals[0]), int(vals[1]), int(vals[2]))
+                i += 5
+            else:
+                raise ValueError("bad %d group selector %r" % (n, tok[i + 1]))
+            is_fg = n == 38
+        else:
+            i += 1
+            if 30 <= n <= 37:
+                col, is_fg = ("n16", n - 30), True
+            elif 90 <= n <= 97:
+                col, is_fg = ("n16", n - 90 + 8), True
+            elif 40 <= n <= 47:
+                col, is_fg = ("n16", n - 40), False
+            elif 100 <= n <= 107:
+                col, is_fg = ("n16", n - 100 + 8), False
+            elif n == 39:
+                col, is_fg = ("default",), True
+            elif n == 49:
+                col, is_fg = ("default",), False
+            else:
+                attrs.append(t)
+                continue
+        if is_fg:
+            if fg is not None:
+                raise ValueError("two foreground groups")
+            fg = col
+        else:
+            if bg is not None:
+                raise ValueError("two background groups")
+            bg = col
+    return attrs, fg, bg
+
+
+def _s_styles():
+    for ai in range(len(S_ATTRS)):
+        for fi in range(len(S_COLOURS)):
+            for bi in range(len(S_COLOURS)):
+                yield (fi, bi, ai)
+
+
+def _s_definition(sd):
+    fi, bi, ai = sd
+    words = list(S_ATTRS[ai])
+
+    def name(c):
+        return "default" if c[0] == "default" else "color(%d)" % c[1] if c[0] == "idx" else "#%02x%02x%02x" % c[1:4]
+    if S_COLOURS[fi] is not None:
+        words.append(name(S_COLOURS[fi]))
+    if S_COLOURS[bi] is not None:
+        words += ["on", name(S_COLOURS[bi])]
+    return " ".join(words)
+
+
+def _s_build(O, sd, parsed):
+    from rich.style import Style
+    fi, bi, ai = sd
+    if parsed:
+        return Style.parse(_s_definition(sd))
+    kw = {a: True for a in S_ATTRS[ai]}
+    fg = O.build(S_COLOURS[fi]) if S_COLOURS[fi] is not None else None
+    bg = O.build(S_COLOURS[bi]) if S_COLOURS[bi] is not None else None
+    return Style(color=fg, bgcolor=bg, **kw)
+
+
+def _s_emit(style, T, via_console):
+    """-> the text emitted for 'x' in that style for system T (None: no colour system)"""
+    if not via_console:
+        return style.render("x", color_system=None if T is None else oracle().SYS[T])
+    import io
+    from rich.console import Console
+    from rich.text import Text
+    f = io.StringIO()
+    c = Console(file=f, width=20, height=5, force_terminal=True, color_system=S_CONSOLE[T],
+                legacy_windows=False, _environ={})
+    c.print(Text("x", style=style, end=""), end="")
+    return f.getvalue()
+
+
+def _s_judge_output(O, sd, T, out):
+    """clauses on one emitted string -> [(class, detail)]"""
+    fi, bi, ai = sd
+    if T is None:
+        return [] if out == "x" else [("no-colour-system", "render(color_system=None) emitted %r" % out)]
+    want_attrs = [S_ATTR_CODE[a] for a in S_ATTRS[ai]]
+    if out == "x":
+        params = None
+    elif out.startswith("\x1b[") and out.endswith("mx\x1b[0m") and "\x1b" not in out[2:-6]:
+        params = out[2:-6]
+    else:
+        return [("shape", "emitted %r, expected ESC [ params m x ESC [ 0 m" % out)]
+    try:
+        attrs, fg, bg = _s_parse_sgr(params) if params is not None else ([], None, None)
+    except ValueError as e:
+        return [("sgr-syntax", "emitted %r: %s" % (out, e))]
+    vio = []
+    if attrs != want_attrs:
+        vio.append(("attributes", "emitted %r: attribute parameters %r, expected %r" % (out, attrs, want_attrs)))
+    for which, ci, got in (("fg", fi, fg), ("bg", bi, bg)):
+        desc = S_COLOURS[ci]
+        if desc is None:
+            if got is not None:
+                vio.append(("spurious/%s" % which, "emitted %r: a %s colour although the style has none" % (out, which)))
+            continue
+        ref = O.ref(desc)
+        tag = "%s/%s-to-%s" % (which, S_KIND[ref[0]], T.lower())
+        if got is None:
+            vio.append(("missing/" + tag, "emitted %r: no %s colour group" % (out, which)))
+            continue
+        k0 = got[0]
+        ok = k0 in ("n16", "default") if T in ("STANDARD", "WINDOWS") else \
+            k0 in ("n16", "n256", "default") if T == "EIGHT_BIT" else True
+        if not ok:
+            vio.append(("gamut/" + tag, "emitted %r: %s group %r is not a colour of the %s system"
+                        % (out, which, got, T.lower())))
+            continue
+        for cls, detail in O.judge_sem(got, ref, T):
+            vio.append(("%s/%s" % (cls, tag), "emitted %r: %s" % (out, detail)))
+    return vio
+
+
+def _s_run(sd, mode, seq, res, solo_bad=None):
+    """one shared Style through the systems of seq (mode: how the object is obtained / shared);
+    the last emission is judged"""
+    from rich.style import Style
+    O = oracle()
+    O.clear_caches()
+    cc = getattr(Style.parse, "cache_clear", None)
+    if cc:
+        cc()
+    case = {"part": "style", "style": list(sd), "definition": _s_definition(sd), "mode": mode, "seq": list(seq)}
+    prefix = "style/" if len(seq) == 1 else "style-history/"
+    via_console = mode == "console"
+    try:
+        style = _s_build(O, sd, mode == "parse")
+        out = None
+        for pos, T in enumerate(seq):
+            if mode == "parse":
+                style = _s_build(O, sd, True)          # what every console does with a style name
+            elif mode == "copy" and pos == len(seq) - 1 and pos > 0:
+                style = style.copy()
+            out = _s_emit(style, T, via_console)
+        T = seq[-1]
+        fresh = _s_emit(_s_build(O, sd, False), T, via_console)
+    except Exception as e:
+        res.violate(prefix + _crash_key(e), case, "%r: %r" % (case, e))
+        return
+    res.evaluations += len(seq) + 1
+    vio = _s_judge_output(O, sd, T, out)
+    if len(seq) > 1:
+        # the fresh emission is judged in full by the length-1 history; a history adds two classes only:
+        # a group outside the gamut of the system rendered for, and any difference from the fresh emission
+        vio = [("gamut/" + cls.split("/")[1], detail) for cls, detail in vio if cls.startswith("gamut/")]
+        if solo_bad is not None and (sd, mode, T) in solo_bad:
+            vio = []
+        if out != fresh:
+            def parts(text):
+                try:
+                    at, fg, bg = _s_parse_sgr(text[2:-6]) if text != "x" else ([], None, None)
+                    return {"attributes": at, "fg": fg, "bg": bg}
+                except Exception:
+                    return {"shape": text}
+            pa, pb = parts(out), parts(fresh)
+            comp = [k for k in ("shape", "attributes", "fg", "bg") if pa.get(k) != pb.get(k)] or ["text"]
+            for k in comp:
+                vio.append(("differs-from-fresh/" + k,
+                            "after rendering for %r the shared style emits %r for %s; a fresh Style(%r) emits %r"
+                            % (list(seq[:-1]), out, T, _s_definition(sd), fresh)))
+    elif vio and solo_bad is not None:
+        solo_bad.add((sd, mode, T))
+    for cls, detail in vio:
+        res.violate(prefix + cls, case, detail)
+    same_before = T in seq[:-1]
+    res.sig(("style", mode, len(seq), T, len(set(seq)) > 1, same_before, bool(vio)),
+            nontrivial=len(set(seq)) > 1)
+
+
+def _s_sequences(mode):
+    ev = SYSTEMS if mode == "console" else S_EVENTS
+    depth = 2 if mode == "console" else S_DEPTH
+    for L in range(1, depth + 1):
+        for seq in itertools.product(ev, repeat=L):
+            yield seq
+
+
+def _part_style(sh, res):
+    mode = sh["mode"]
+    solo_bad = set()
+    n = 0
+    for idx, sd in enumerate(_s_styles()):
+        if idx % sh["n"] != sh["i"]:
+            continue
+        if deadline_passed():
+            res.capped = True
+            break
+        for seq in _s_sequences(mode):
+            _s_run(sd, mode, seq, res, solo_bad)
+            n += 1
+    res.count("style_histories", n)
+    if sh["i"] == 0:
+        res.sample({"part": "style", "mode": mode, "definition": _s_definition((2, 6, 1)),
+                    "seq": ["TRUECOLOR", "STANDARD"]}, limit=1)
 
 
 # ------------------------------------------------------------------ cold children
@@ -1241,6 +1508,8 @@ def plan(tier, seed):
         b = _t_bound(hid, tier)
         n = 1 if _t_forked(hid, b) else 16
         shards += [{"part": "threads", "h": hid, "bound": b, "i": i, "n": n} for i in range(n)]
+    for mode in S_MODES:
+        shards += [{"part": "style", "mode": mode, "i": i, "n": 4} for i in range(4)]
     shards += [{"part": "meta"}, {"part": "small", "which": "indexed"}, {"part": "small", "which": "named"},
                {"part": "greys"}, {"part": "pals"}]
     shards += [{"part": "grid", "ri": i} for i in range(len(GRID))]
@@ -1280,6 +1549,8 @@ def run_shard(sh, tier, seed):
         _part_threads(sh, tier, res)
     elif p == "fault":
         _part_fault(sh, res)
+    elif p == "style":
+        _part_style(sh, res)
     elif p == "lattice":
         _rgb_block([(sh["r"], g, b) for g in range(sh["og"], 256, LATTICE) for b in range(sh["ob"], 256, LATTICE)],
                    ("triplet",), res, sh, False, info=True)
@@ -1314,7 +1585,14 @@ def describe(tier, seed, res):
                 "convert one RGB colour through the shared palettes and memos from cold memos; every interleaving of the "
                 "executed lines of rich.color and rich.palette with <= bound preemptions (%s) is run; each thread's result "
                 "and the memoised answer to the same question afterwards are judged by the sequential clauses; a schedule "
-                "is non-trivial when it contains a preemption; except for the bound-2 palette harnesses of the thorough tier "
+                "is non-trivial when it contains a preemption. Shared Style (part style): every fg x bg pair over %d colours "
+                "of the kinds {none, default, standard x2, 8-bit x2, truecolor x2} (%d pairs) x attributes {none, bold} as ONE "
+                "Style object obtained by constructor / Style.parse (shared through its memo) / copy() after the earlier "
+                "renders, rendered with Style.render for every sequence of <=%d elements of {STANDARD, EIGHT_BIT, TRUECOLOR, "
+                "WINDOWS, no colour system}, and printed through consoles of every ordered pair of systems; the last emitted "
+                "string is decoded by an own SGR parser: attribute parameters, each colour group a colour of the system "
+                "rendered for, nearest / unchanged / default clauses, and equality with what a fresh Style of the same "
+                "definition emits for that system; non-trivial = the history contains two different systems. Threads again: except for the bound-2 palette harnesses of the thorough tier "
                 "every schedule runs in a child forked from a worker that has converted nothing (lazily built module state "
                 "starts cold); a harness stops after %d violating schedules. Faults (E4): first conversion of a cold child, "
                 "colours %s x systems %s, interrupted by an exception at the k-th execution of Palette.match and at the k-th "
@@ -1323,6 +1601,7 @@ def describe(tier, seed, res):
                 % (len(oracle().names), H_DEPTH, len(H_COLOURS),
                    ", ".join("%s: %r->%s || %r->%s" % (h, T_HARNESS[h][0][1:-1], T_HARNESS[h][1], T_HARNESS[h][2][1:-1], T_HARNESS[h][3]) for h in T_ORDER),
                    ", ".join("%s: %d" % (h, _t_bound(h, tier)) for h in T_ORDER),
+                   len(S_COLOURS), len(S_COLOURS) ** 2, S_DEPTH,
                    T_STOP_AFTER_VIOLATIONS, [list(f[1:-1]) for f in F_FIRST], list(F_SYSTEMS), F_MAX_K, len(F_RGB_AFTER)),
         "assumptions": [
             "the three palettes in rich/_palettes.py are trusted as data (entries 16..255 of the 256-colour palette are checked against the xterm cube and grey ramp)",
@@ -1340,6 +1619,7 @@ def describe(tier, seed, res):
                      "transitions": res.counters.get("schedules", 0),
                      "schedules_explored": res.counters.get("schedules", 0),
                      "fault_points_enumerated": res.counters.get("fault_runs", 0),
+                     "shared_style_histories": res.counters.get("style_histories", 0),
                      "completed_thread_harness_bounds": sorted(k[17:] for k in res.counters if k.startswith("threads_complete:")),
                      "explanation": "states = scheduling choice points visited over all explored schedules of the thread "
                                     "harnesses; transitions = schedules explored, each a complete execution of the real code"},
@@ -1359,6 +1639,8 @@ def replay(case):
         _replay_threads(case, res)
     elif p == "fault":
         _replay_fault(case, res)
+    elif p == "style":
+        _s_run(tuple(case["style"]), case["mode"], tuple(case["seq"]), res)
     else:
         desc = tuple(case["desc"])
         O.clear_caches()
